@@ -388,7 +388,8 @@ func (s *Lexer) getNextToken() (*Token, error) {
 		} else if current_state == SBLOCKCOMMENTSTARTEND && ch == '-' {
 			buf.WriteRune(ch)
 			current_state = SBLOCKCOMMENTENDEND
-		} else if current_state == SBLOCKCOMMENTSTARTEND && ch == ')' {
+		} else if (current_state == SBLOCKCOMMENTSTARTEND || current_state == SBLOCKCOMMENTENDEND) && ch == ')' {
+			// a ')' may always be the first character of the closing ")--"
 			buf.WriteRune(ch)
 			current_state = SBLOCKCOMMENTSTARTEND
 		} else if current_state == SBLOCKCOMMENTENDEND && ch == '-' {
